@@ -1266,6 +1266,7 @@ def r_permsample(ctx) -> RuleResult:
          [(3, {SYM: "C"}), (7, {SYM: "O", CHG_: -1}), (10, {SYM: "H", MASS_: 2}), (12, {SYM: "O"})], [(3, 7, 1), (3, 10, 1), (3, 12, 2)]),
         ("hydrogen peroxide numbered from 1 as in a molfile", [(1, {SYM: "H"}), (2, {SYM: "O"}), (3, {SYM: "O"}), (4, {SYM: "H", MASS_: 3})], [(1, 2, 1), (2, 3, 1), (3, 4, 1)]),
         ("water listed as 2, 0, 1", [(2, {SYM: "O"}), (0, {SYM: "H"}), (1, {SYM: "H", MASS_: 2})], [(2, 0, 1), (2, 1, 1)]),
+        ("two atoms with identical records (H2 as the TUCAN parser makes it)", [(0, {SYM: "H"}), (1, {SYM: "H"})], [(0, 1, 1)]),
     ]
 
     def iso(a: SampleGraph, b: SampleGraph) -> bool:
@@ -1283,7 +1284,8 @@ def r_permsample(ctx) -> RuleResult:
         return False
     n = 0
     for what, nodes, edges in samples:
-        pe, env = sample_evaluator(ctx, fi, {"nx": SampleNx(), "random": SampleRandom()})
+        rnd = SampleRandom()
+        pe, env = sample_evaluator(ctx, fi, {"nx": SampleNx(), "random": rnd})
         g = make(nodes, edges)
         before = copy.deepcopy((g._nodes, {k: dict(v) for k, v in g._adj.items()}))
         e = dict(env)
@@ -1296,6 +1298,16 @@ def r_permsample(ctx) -> RuleResult:
         except (NameError, UnboundLocalError):
             raise
         except Exception as ex:
+            import math
+            if "loop does not end on the sample" in str(ex) and len(nodes) == 2 and len(rnd.seen_orders) >= math.factorial(len(nodes)) and not pe.gaps:
+                # two atoms: both orders were drawn, again and again, and each kept a retry loop going -- whatever the
+                # generator draws, the call does not come back for this molecule
+                n += 1
+                res.inst(fi.fq, f"sample: {what}", "fail", detail="a retry loop goes on for both orders of the two atoms")
+                res.fail(Finding("R-PERMSAMPLE", fi.module.rel, fi.qualname, f"sample: {what}",
+                                 f"following the permutation helper on a sample molecule ({what}): a retry loop goes round again for each of the two possible orders of the atoms, "
+                                 "so the call does not end for this molecule whatever is drawn", line=fi.node.lineno))
+                continue
             res.inst(fi.fq, f"sample: {what}", "ok", detail=f"not followed by the sample evaluator ({type(ex).__name__})")
             continue
         outs = [v for _s, how, v in lefts if how == "return"]
